@@ -34,8 +34,11 @@ def make_pool(rnd, n):
         if k < 0.45:
             t = g.program()
             text = ref.Renderer(rnd=rnd).render(t) if not (t[0] == "stmt" and not t[1]) else ""
-        elif k < 0.8:
+        elif k < 0.7:
             text = ref.Renderer(rnd=rnd).render(tg.gen("A", rnd.randint(1, 4)))
+        elif k < 0.8:
+            # short numeric programs: many near-identical literals of equal length live in the pool
+            text = rnd.choice(["%s - 1", "amount > %s", "%s", "[%s, 2]"]) % ref.num_text(rnd.randrange(10 ** rnd.randint(0, 9)), rnd.choice([0, 0, 2, 2, 3]))
         else:
             w = rnd.choice(WORDS)
             text = {"wplus": "6 wplus 4 * 2", "wjoin": "a wjoin 2 wjoin 3", "wneg": "wneg 3 + 1", "wpost": "7 wpost", "minov": "min(3, 4)", "sumov": "[sum(1, 2), nosuchfunction(1)]"}[w]
@@ -50,7 +53,7 @@ def make_pool(rnd, n):
             i = rnd.randrange(len(text))
             c = text[i]
             if c.isdigit():
-                tw = text[:i] + str((int(c) + 1) % 10) + text[i + 1:]
+                tw = text[:i] + (str((int(c) + 1) % 10) if rnd.random() < 0.5 else {"1": "9", "9": "1", "0": "8", "8": "0"}.get(c, str(9 - int(c)))) + text[i + 1:]
             elif c in "+-":
                 tw = text[:i] + ("-" if c == "+" else "+") + text[i + 1:]
             elif c in "abcd":
